@@ -80,3 +80,35 @@ def read_replay(path):
             continue
         ops.append(l)
     return eng, ops
+
+
+def collect(engine, cases, oracle, kinds, rep, stats):
+    """runs cases, returns findings (mismatches + oracle failures of the given kinds)"""
+    findings = []
+    results = run_cases(engine, cases)
+    for c in results:
+        stats["cases"] += 1
+        stats["ops"] += len(c["raw"])
+        key = hashlib.sha1("\n".join(c["ann"]).encode()).hexdigest()
+        if key not in stats["distinct"]:
+            stats["distinct"].add(key)
+        mi = first_mismatch(c)
+        if mi is not None:
+            findings.append({"kind": "mismatch", "engine": engine, "case": c, "idx": mi,
+                             "msg": "op %d `%s`: impl `%s` vs model `%s`" % (
+                                 mi, c["ann"][mi] if mi < len(c["ann"]) else "?",
+                                 c["impl"][mi] if mi < len(c["impl"]) else "<missing>",
+                                 c["model"][mi] if mi < len(c["model"]) else "<missing>"),
+                             "pred": (lambda cc: first_mismatch(cc) is not None)})
+        else:
+            stats["validated"] += 1
+        for kind, idx, msg in oracle(c["raw"], c["ann"], c["impl"]):
+            if kind not in kinds:
+                continue
+            strat = re.search(r"strat=(\w+)", c["ann"][0])
+            sig = {"engine": engine, "kind": kind, "strategy": strat.group(1) if strat else None}
+            findings.append({"kind": "oracle", "engine": engine, "case": c, "idx": idx, "msg": msg, "sig": sig,
+                             "pred": (lambda cc, kind=kind: any(k == kind for k, _, _ in oracle(cc["raw"], cc["ann"], cc["impl"])))})
+    return findings
+
+
